@@ -498,6 +498,12 @@ func runProperty(p *Program, id, tier string, seed int, findings []*finding) *pr
 		violations += len(bv)
 		cov["explanation"] = "the property quantifies over all programs: it is decided by the bounded harness (labelled bounded, never counted as proved); the discharged obligations listed here are the per-function contracts the property rests on (code emission and back-patching, the machine's jump, iteration and case steps, iteration contracts of the objects)"
 	}
+	for _, hid := range supportHarness[id] {
+		bv, _, bn := runHarness(id, hid, tier, seed, findings, res)
+		violLines = append(violLines, bv...)
+		supportNotes = append(supportNotes, bn...)
+		violations += len(bv)
+	}
 	cov["known_findings"] = knownLines
 	as := sortedKeys(assume)
 	as = append(as, propertyAssumptions(id)...)
